@@ -10,7 +10,10 @@ wt=$(mktemp -d /tmp/gpconfirm-XXXXXX); rmdir "$wt"
 git -C /repo worktree add -q --detach "$wt" HEAD || exit 3
 trap 'git -C /repo worktree remove --force "$wt" >/dev/null 2>&1; rm -rf "$wt"' EXIT
 rundemo() {
-  if [ -f "$d/demo.sh" ]; then sh "$d/demo.sh" "$wt" >/dev/null 2>&1; return $?; fi
+  if [ -f "$d/demo.sh" ]; then
+    sh=sh; head -1 "$d/demo.sh" | grep -q bash && sh=bash
+    $sh "$d/demo.sh" "$wt" >/dev/null 2>&1; return $?
+  fi
   t=$(ls "$d"/*_test.go 2>/dev/null | head -1)
   [ -n "$t" ] || return 99
   pkg=$(sed -n 's/^package \([A-Za-z_0-9]*\).*/\1/p' "$t" | head -1); pkg=${pkg%_test}
